@@ -33,6 +33,7 @@ def run(ctx):
     ctx.rule(save_structure)
     ctx.rule(default_key)
     ctx.rule(loader)
+    ctx.rule(nothing_pending)
 
 
 def _std(prog):
@@ -377,3 +378,53 @@ def loader(ctx, R="R-C17-loader"):
     txt = astq.text(rs.node)
     for kind in ("npy", "npz", "file"):
         ctx.check("force_as == '%s'" % kind in txt, R, rs, rs.node, "read_signal handles '%s'" % kind, "read_signal no longer handles %s" % kind, structural=True)
+
+
+
+def nothing_pending(ctx, R="R-C17-save-complete"):
+    """What accumulate records is what save writes: data taken from the features and kept on the instance anywhere but in the
+    statistics matrix (a buffer of pending vectors, a partial sum) must be read - directly or through a method it calls - by
+    save, otherwise the saved file lacks it and the reloaded transform differs from the one the object applies."""
+    from .c04 import attr_writes
+    prog = ctx.prog
+    c = _std(prog)
+    acc = prog.own_method(c, "accumulate")
+
+    def reach(start):
+        seen, todo = [], [start]
+        while todo:
+            g = todo.pop()
+            if g in seen:
+                continue
+            seen.append(g)
+            for call in astq.func_calls(g):
+                if isinstance(call.func, ast.Attribute) and g.params and astq.is_name(call.func.value, g.params[0]):
+                    m = prog.find_method(c, call.func.attr)
+                    if m is not None and m not in seen:
+                        todo.append(m)
+        return seen
+
+    pending = {}
+    for g in reach(acc):
+        data_names = set(g.params[1:2])
+        # locals computed from the data parameter
+        for n in g.body_nodes():
+            if isinstance(n, ast.Assign) and any(isinstance(x, ast.Name) and x.id in data_names for x in ast.walk(n.value)):
+                data_names.update(t.id for t in n.targets if isinstance(t, ast.Name))
+        for attr, kind, node in attr_writes(g):
+            if attr in ("_stats",):
+                continue
+            val = node.value if isinstance(node, (ast.Assign, ast.AugAssign)) else node
+            if any(isinstance(x, ast.Name) and x.id in data_names for x in ast.walk(val)):
+                pending.setdefault(attr, (g, node))
+    save = prog.own_method(c, "save")
+    read_by_save = set()
+    for g in reach(save):
+        if g.params:
+            read_by_save.update(x.attr for x in g.body_nodes() if astq.is_self_attr(x, g.params[0]))
+    for attr, (g, node) in sorted(pending.items()):
+        ctx.check(attr in read_by_save, R, g, node, "data kept in self.%s by accumulate is taken into account by save" % attr,
+                  "accumulate keeps data from the features in self.%s (%s) but save neither reads it nor calls a method that does: statistics saved "
+                  "before it is folded into the matrix lack those vectors, and the reloaded transform differs" % (attr, astq.text(node)[:70]))
+    if not pending:
+        ctx.ok(R, acc.loc(), "accumulate keeps data from the features only in the statistics matrix, which is what save writes")
